@@ -1467,7 +1467,10 @@ func (p *Parser) attachSiblingsAsArgs(parentObj, targetObj *Object, numArgs uint
 		siblingObj = p.objTree.ObjectAt(siblingIndex)
 		siblingIndex = siblingObj.nextSiblingIndex
 
-		p.objTree.detach(parentObj, siblingObj)
+		// siblingObj may be a sibling of parentObj (useParentSiblings);
+		// detach it from the object it is actually attached to so that
+		// the first/last arg links of that object are kept up to date.
+		p.objTree.detach(p.objTree.ObjectAt(siblingObj.parentIndex), siblingObj)
 		p.objTree.append(targetObj, siblingObj)
 	}
 	return parseResultOk
